@@ -205,10 +205,35 @@ def gen_behaviours(module, out_path, num, depth, seed, per_prefix=4):
     return len(lines)
 
 
+def _limbs(m):
+    return sum(int(x) * 10000 ** i for i, x in enumerate(m))
+
+
+def check_apa_tables():
+    """The literal leap table and scale offsets of spec/apalache/APA_Scales.tla (Apalache needs literals) are the
+    ones the specification derives from calendar dates (Real.tla, evaluated by TLC into work/landmarks.json)."""
+    with open(ensure_landmarks()) as f:
+        lm = json.load(f)
+    want = [(_limbs(t), _limbs(d)) for t, d in lm["leap"]]
+    refs = [(-1 if r["neg"] else 1) * _limbs(r["m"]) for r in lm["refs"]]
+    src = open(os.path.join(SPEC, "apalache", "APA_Scales.tla")).read()
+    body = src[src.index("Leap == <<"):src.index("NL ==")]
+    got = [(int(a), int(b)) for a, b in re.findall(r"<<(\d+), (\d+)>>", body)]
+    if got != want:
+        raise ToolError("APA_Scales.tla: the literal leap table differs from the one derived in Real.tla")
+    m = re.search(r"Ref == <<(.*?)>>", src)
+    gref = [int(x) for x in m.group(1).split(",")]
+    # TAI TT GPST GST BDT QZSST = scales 0 1 5 6 7 8
+    if gref != [refs[i] for i in (0, 1, 5, 6, 7, 8)]:
+        raise ToolError("APA_Scales.tla: the literal scale offsets differ from the ones derived in Real.tla")
+
+
 def run_apalache(module, invs, expect_error=()):
     """L1': symbolic check of refinement kernels at the REAL constants, all inputs (one SMT query each).
     A refuted kernel means the transcription/specification is wrong, not the code: tool error."""
     out = []
+    if module == "APA_Scales.tla":
+        check_apa_tables()
     work = os.path.join(WORK, "apa_%d" % os.getpid())
     for inv in list(invs) + list(expect_error):
         t = time.time()
